@@ -45,6 +45,16 @@ def eval_case(case):
         df = O.dump_diff(d1, tr3[-1]["dump"])
         if df:
             out.append(O.V("calling simulate() again on a simulated project gives a different result", "C09/rerun", df[:3]))
+    # (iv) hidden state outside the object: default-argument call, log edit, default-argument call on a new object
+    if case.get("defaults_probe"):
+        ops = [{"op": "simulate_default", "max_time": 40}]
+        bA, trA = sim.run_ops(case, want_snaps=False, ops=ops + [{"op": "insert_absence", "list": [1]}])
+        bB, trB = sim.run_ops(case, want_snaps=False, ops=ops)
+        if trA[0]["exc"] is None and trB[0]["exc"] is None:
+            df = O.dump_diff(trA[0]["dump"], trB[0]["dump"])
+            if df:
+                out.append(O.V("an earlier run on another project object changes a later default-argument run (hidden shared state)",
+                               "C09/hidden-default", df[:3]))
     return {"violations": out, "disagreements": dis, "sig": simcheck.behaviour_sig(S, tr1), "hist": simcheck.base_hist(S, tr1),
             "nontrivial": (d1 or {}).get("time", 0) >= 2, "dump": simcheck.jsonable(d1),
             "summary": {"status": (d1 or {}).get("status"), "time": (d1 or {}).get("time")}}
@@ -61,6 +71,7 @@ def gen_cases(rng, n):
         c["alt_ranks"] = [[rng.sample(range(8), 8)[:nt], rng.sample(range(8), 8)[:nc]] for _ in range(3)]
         c["alt_ranks"].append([list(range(nt)), list(range(nc))])
         c["alt_ranks"].append([list(range(nt - 1, -1, -1)), list(range(nc - 1, -1, -1))])
+        c["defaults_probe"] = (i % 10 == 0)
         cases.append(c)
     return cases
 
